@@ -3454,3 +3454,207 @@ def run_C08(ctx):
 
 
 register("C08", ["Guard.Properties.C08"], run_C08, needs_cli=True)
+
+
+# =============================================================================== C10
+
+C10_FUNCS = ("count", "to_upper", "to_lower", "parse_int", "parse_string", "parse_boolean", "parse_float", "parse_char",
+             "json_parse", "url_decode", "join", "substring", "regex_replace", "now", "parse_epoch")
+
+
+def c10_literal_lets(rules):
+    """does the file bind a variable to a LITERAL (whose values have paths of their own, not document paths)?"""
+    import re as _re
+    for m in _re.finditer(r"\blet\s+\w+\s*:?=\s*(\S+)", rules):
+        t = m.group(1)
+        if not _re.match(r"[A-Za-z_%]", t) or _re.match(r"(?i)(true|false|null)\b", t) or _re.match(r"r[\[(]", t):
+            return True
+    return False
+
+
+def c10_pairs(j, acc, where=""):
+    """every {path, value} object of a structured report, with the field it sits in"""
+    if isinstance(j, dict):
+        if set(j.keys()) == {"path", "value"}:
+            acc.append((where, j["path"], j["value"]))
+            return
+        for k, v in j.items():
+            c10_pairs(v, acc, k if k in ("from", "to", "traversed_to") else where)
+    elif isinstance(j, list):
+        for v in j:
+            c10_pairs(v, acc, where)
+
+
+def c10_unresolved(j, acc):
+    if isinstance(j, dict):
+        if "traversed_to" in j and "remaining_query" in j:
+            acc.append(j)
+        for v in j.values():
+            c10_unresolved(v, acc)
+    elif isinstance(j, list):
+        for v in j:
+            c10_unresolved(v, acc)
+
+
+def c10_strings(j, acc):
+    if isinstance(j, str):
+        acc.append(j)
+    elif isinstance(j, dict):
+        for v in j.values():
+            c10_strings(v, acc)
+    elif isinstance(j, list):
+        for v in j:
+            c10_strings(v, acc)
+
+
+def c10_same(a, b):
+    if isinstance(a, dict):
+        return isinstance(b, dict) and set(a) == set(b) and all(c10_same(a[k], b[k]) for k in a)
+    if isinstance(a, list):
+        return isinstance(b, list) and len(a) == len(b) and all(c10_same(x, y) for x, y in zip(a, b))
+    if isinstance(a, bool) or isinstance(b, bool) or a is None or b is None:
+        return a is b
+    if isinstance(a, (int, float)) and isinstance(b, (int, float)):
+        return a == b
+    return a == b and type(a) == type(b)
+
+
+def run_C10(ctx):
+    import emit as _emit
+    import re as _re
+    res = Result("generated function-free rule files x documents (keys without '/'), each document serialised as JSON, flow YAML and "
+                 "block YAML with randomised layout (indentation, line breaks, comments, quoting), real evaluator in-process "
+                 "(validate --structured -o json): every reported {path, value} under from / traversed_to (and under to when its "
+                 "path is non-empty) must resolve in the document to exactly that value; for every unresolved check the reached "
+                 "value is in the document and the next queried segment is not; every `Path=<p>[L:l,C:c]` of a scalar must be the "
+                 "position PyYAML's composer gives that scalar in the data file text; evaluator correspondence with the Lean model "
+                 "on the same inputs; non-trivial = (rules, document, layout) with at least one reported path")
+    n = 2600 if ctx.thorough() else 260
+    rng = random.Random(ctx.seed * 1013 + 10)
+    scen = []
+    for i in range(n):
+        g = gen.G(ctx.seed * 3100019 + i, core=(i % 3 != 0))
+        cfn = rng.random() < 0.25
+        doc = g.cfn_doc() if cfn else g.doc(depth=rng.choice([2, 3, 4]))
+        if not isinstance(doc, dict) or not doc:
+            continue
+        rules = g.rules_file(doc, depth=2, cfn=cfn)
+        if any(_re.search(r"\b%s\s*\(" % f, rules) for f in C10_FUNCS):
+            rules = "\n".join(l for l in rules.split("\n") if not any(_re.search(r"\b%s\s*\(" % f, l) for f in C10_FUNCS)) + "\n"
+        for style in ("json", "flow", "block"):
+            try:
+                text, pos = _emit.self_check(random.Random(ctx.seed * 17 + i * 3 + len(style)), doc, style)
+            except Exception as e:
+                res.stats["emitter-self-check-failed"] += 1
+                continue
+            scen.append({"rules": rules, "doc": doc, "style": style, "text": text, "pos": pos, "lit": c10_literal_lets(rules)})
+    reqs = [{"id": i, "op": "cli", "argv": ["validate", "-r", "{DIR}/r.guard", "-d", "{DIR}/d.yaml", "--structured", "-o", "json", "-S", "none"],
+             "files": {"r.guard": s["rules"], "d.yaml": s["text"]}} for i, s in enumerate(scen)]
+    outs = ctx.hp.map(reqs, timeout=60)
+    for s, r in zip(scen, outs):
+        res.evaluations += 1
+        res.stats["style:" + s["style"]] += 1
+        info = {"rules": s["rules"], "data": s["text"], "doc": s["doc"], "style": s["style"]}
+        if "died" in r or "panic" in (r.get("result") or {}):
+            res.judge_failures.append(dict(info, what="validate did not return (%s)" % (r.get("died") or r["result"]["panic"][:100]), **{"class": "c10-crash"}))
+            continue
+        code = (r.get("result") or {}).get("code")
+        res.stats["exit:%s" % code] += 1
+        if code not in (0, 19):
+            continue
+        try:
+            rep = json.loads(r["stdout"])
+        except Exception:
+            res.stats["unparsable-report"] += 1
+            continue
+        pairs, unres, strs = [], [], []
+        c10_pairs(rep, pairs)
+        c10_unresolved(rep, unres)
+        c10_strings(rep, strs)
+        if pairs:
+            res.nontrivial.add(vlib.sha(s["rules"] + "\0" + s["text"]))
+        for where, path, value in pairs:
+            res.stats["pair:" + (where or "?")] += 1
+            if path == "" and not c10_same(value, s["doc"]):
+                # a literal (rule text), not a document value
+                res.stats["pair-literal:" + where] += 1
+                if where in ("from", "traversed_to") and not s["lit"] and where != "from":
+                    res.judge_failures.append(dict(info, what="%s has the empty path but its value is not the document: %r" % (where, value), **{"class": "c10-empty-path-" + where}))
+                continue
+            if s["lit"]:
+                res.stats["pair-skipped-literal-lets"] += 1
+                continue
+            try:
+                got = _emit.resolve(s["doc"], path)
+            except Exception as e:
+                if where == "to":
+                    res.stats["to-not-in-doc(literal element)"] += 1
+                    continue
+                res.judge_failures.append(dict(info, what="reported %s path %r does not resolve in the document (%s)" % (where, path, type(e).__name__), **{"class": "c10-unresolvable-" + where}))
+                continue
+            if not c10_same(got, value):
+                if where == "to":
+                    res.stats["to-differs(literal element)"] += 1
+                    continue
+                res.judge_failures.append(dict(info, what="reported %s path %r resolves to %r but the report says %r" % (where, path, got, value), **{"class": "c10-wrong-value-" + where}))
+        if not s["lit"]:
+            for u in unres:
+                res.stats["unresolved"] += 1
+                tp = u["traversed_to"]["path"]
+                try:
+                    at = _emit.resolve(s["doc"], tp)
+                except Exception:
+                    continue      # reported above
+                rq = u.get("remaining_query") or ""
+                m = _re.match(r"^(?:\[)?([^.\[\]]+)", rq)
+                if not m:
+                    res.stats["unresolved-next:other"] += 1
+                    continue
+                seg = m.group(1).strip("'\"")
+                if seg in ("*",):
+                    bad = (isinstance(at, (dict, list)) and len(at) > 0)
+                    kind = "star"
+                elif _re.fullmatch(r"-?\d+", seg) and isinstance(at, list):
+                    bad = abs(int(seg)) < len(at)
+                    kind = "index"
+                elif seg.startswith("%") or seg == "this":
+                    res.stats["unresolved-next:variable"] += 1
+                    continue
+                else:
+                    bad = isinstance(at, dict) and seg in at
+                    kind = "key"
+                res.stats["unresolved-next:" + kind] += 1
+                if bad:
+                    res.judge_failures.append(dict(info, what="unresolved check says it stopped at %r before %r, but that segment exists there" % (tp, rq),
+                                                   **{"class": "c10-unresolved-next-exists-" + kind}))
+        # positions
+        for t in strs:
+            for m in _re.finditer(r"(?:Path=|\[|path )(/[^\[\] ]*)\[L:(\d+),C:(\d+)\]", t):
+                p_, l_, c_ = m.group(1), int(m.group(2)), int(m.group(3))
+                want = s["pos"].get(p_)
+                if want is None:
+                    # elements of a literal list / struct in the rule text carry paths of their own (/0, /k)
+                    res.stats["position:path-not-in-doc(literal element)"] += 1
+                    continue
+                if want[2] != "scalar":
+                    res.stats["position:non-scalar"] += 1
+                    continue
+                res.stats["position:scalar"] += 1
+                if (l_, c_) != (want[0], want[1]) and not s["lit"]:
+                    res.judge_failures.append(dict(info, what="scalar %r starts at line %d column %d of the data file but the report says L:%d,C:%d" % (p_, want[0], want[1], l_, c_),
+                                                   **{"class": "c10-position-" + s["style"]}))
+        if len(res.samples) < 4 and pairs:
+            res.add_sample({"style": s["style"], "data_head": s["text"][:120], "first_pair": pairs[0][:2]})
+    # correspondence with the model on the same rule files (JSON rendering of the document)
+    seen, cases = set(), []
+    for s in scen:
+        k = vlib.sha(s["rules"] + json.dumps(s["doc"]))
+        if k not in seen:
+            seen.add(k)
+            cases.append({"rules": s["rules"], "data": json.dumps(s["doc"])})
+    results = vlib.correspond(cases[: (1500 if ctx.thorough() else 150)], ctx.hp, ctx.mp, detail=True)
+    absorb(res, results, "evaluator (paths in canonical trees)")
+    return res
+
+
+register("C10", ["Guard.Properties.C10"], run_C10)
